@@ -403,6 +403,91 @@ func c11Run(c core.Case) core.Result {
 			return core.Violation("macro", fmt.Sprintf("renders\n    %q, want\n    %q\n    %s", out, want, desc))
 		}
 		return core.Okay(true, out)
+	case "afterfail":
+		// an execution fails inside a macro body that has already produced output (30 rounds, same / fresh
+		// environment); the next macro call returns its own rendering only
+		fail, same := c.N[0], c.N[1] == 1
+		tpls := map[string]string{
+			"mac":  "{% macro m(a) %}<div>{{ a }} / {{ tok }} / {% for q in 5 %}{% endfor %}</div>{% endmacro %}{% macro ok(a) %}[{{ a }}]{% endmacro %}{% macro f2(a) %}pre-{{ a }}-{{ nofunc() }}{% endmacro %}",
+			"bad0": "{% import 'mac' as i %}{{ i.m('alice') }}",
+			"bad1": "{% from 'mac' import f2 %}x{{ f2('alice') }}",
+			"bad2": "{% macro w(a) %}W{{ a }}{{ boom() }}{% endmacro %}{{ _self.w('alice') }}",
+			"good": "{% import 'mac' as i %}{% from 'mac' import ok %}{{ i.ok('bob') }}|{{ ok('carol') }}|{% macro own(a) %}({{ a }}){% endmacro %}{{ _self.own('dan') }}",
+		}
+		want := "[bob]|[carol]|(dan)"
+		var log []string
+		mk := func() *stick.Env {
+			e := c11Env(tpls, &log)
+			e.Functions["boom"] = func(ctx stick.Context, args ...stick.Value) stick.Value { panic("boom") }
+			return e
+		}
+		env := mk()
+		for round := 0; round < 30; round++ {
+			fenv, genv := env, env
+			if !same {
+				fenv, genv = mk(), mk()
+			}
+			if _, err, pan := tryExec(fenv, "bad"+itoa(fail), map[string]stick.Value{"tok": "token-0"}); err == nil && pan == "" {
+				return core.Violation("error", "the failing template bad"+itoa(fail)+" rendered without error")
+			}
+			out, err, pan := tryExec(genv, "good", nil)
+			if pan != "" || err != nil || out != want {
+				return core.Violation("macro", fmt.Sprintf("round %d: after an execution that failed inside a macro body (%q), %q renders %q (%v %s), want %q", round, tpls["bad"+itoa(fail)], tpls["good"], out, err, pan, want))
+			}
+		}
+		return core.Okay(true, want)
+	case "samelocal":
+		// the same local name bound by several import / from tags of one source - inside two macro bodies, in both
+		// branches of an if, in a loop body: every binding is fine where it stands
+		tpls := map[string]string{"mac": c11MacroDef("m", 1) + "{% macro n(a) %}N<{{ a }}>{% endmacro %}"}
+		r1, r2 := c11MacroExpect(1, 1, "mac"), strings.Replace(c11MacroExpect(1, 1, "mac"), "s1", "s2", 1)
+		_ = r2
+		src, want := "", ""
+		switch c.N[0] {
+		case 0:
+			src = "{% macro a() %}{% from 'mac' import m %}{{ m('s1') }}{% endmacro %}{% macro b() %}{% from 'mac' import m %}{{ m('s1') }}{% endmacro %}{{ _self.a() }}|{{ _self.b() }}"
+			want = r1 + "|" + r1
+		case 1:
+			src = "{% if true %}{% import 'mac' as lib %}{{ lib.m('s1') }}{% else %}{% import 'mac' as lib %}{{ lib.n(1) }}{% endif %}|{% if false %}{% import 'mac' as lib %}{% else %}{% import 'mac' as lib %}{{ lib.n(2) }}{% endif %}"
+			want = r1 + "|N<2>"
+		case 2:
+			src = "{% for q in [1, 2] %}{% from 'mac' import n as m %}{{ m(q) }}{% endfor %}|{% from 'mac' import m %}{{ m('s1') }}"
+			want = "N<1>N<2>|" + r1
+		case 3:
+			src = "{% import 'mac' as lib %}{% import 'mac' as lib %}{{ lib.n(3) }}|{% from 'mac' import n %}{% from 'mac' import n %}{{ n(4) }}"
+			want = "N<3>|N<4>"
+		}
+		tpls["main"] = src
+		out, err, pan, _ := c11Exec(tpls)
+		if pan != "" || err != nil || out != want {
+			return core.Violation("macro", fmt.Sprintf("%q renders %q (%v %s), want %q", src, out, err, pan, want))
+		}
+		return core.Okay(true, out)
+	case "stateful":
+		// a macro whose body calls a counting host function, called n times with equal arguments (and with the outer
+		// text between the calls changing): the body is rendered for every call
+		n, form := c.N[0], c.N[1]
+		calls := 0
+		tpls := map[string]string{"mac": "{% macro m(a) %}<{{ a }}:{{ count() }}>{% endmacro %}"}
+		prelude, call, _ := c11Call(form, "'k'")
+		def := ""
+		if form == 0 {
+			def = tpls["mac"]
+		}
+		tpls["main"] = def + prelude + "{% for q in 1.." + itoa(n) + " %}{{ " + call + " }}{% endfor %}|{{ " + call + " }}"
+		var log []string
+		env := c11Env(tpls, &log)
+		env.Functions["count"] = func(ctx stick.Context, args ...stick.Value) stick.Value { calls++; return calls }
+		want := ""
+		for i := 1; i <= n; i++ {
+			want += "<k:" + itoa(i) + ">"
+		}
+		want += "|<k:" + itoa(n+1) + ">"
+		out, err, pan := tryExec(env, "main", nil)
+		if pan != "" || err != nil || out != want {
+			return core.Violation("macro", fmt.Sprintf("%q renders %q (%v %s), want %q (the body is rendered at every call)", tpls["main"], tail(out, 80), err, pan, tail(want, 80)))
+		}
+		return core.Okay(true, itoa(n))
 	case "inline":
 		// the macro file is an inline template (the default StringLoader: a template's name is its source): a callback
 		// inside the macro body still sees the name of the template that defines the macro - that source
@@ -607,6 +692,21 @@ func c11Levels(tier string) []core.Level {
 							emit(core.Case{Fam: "hosted", N: []int{p, a, how, use}})
 						}
 					}
+				}
+			}
+		}},
+		{Name: "histories and repetitions: executions failing inside a macro body that has produced output, then good macro calls (3 failures x same / fresh environment x 30 rounds); one local name bound by several import / from tags of one source (4 shapes); a macro with a counting callback in its body called 1..6, 101, 150 times with equal arguments x 4 call forms", Gen: func(emit func(core.Case)) {
+			for f := 0; f < 3; f++ {
+				for same := 0; same < 2; same++ {
+					emit(core.Case{Fam: "afterfail", N: []int{f, same}})
+				}
+			}
+			for k := 0; k < 4; k++ {
+				emit(core.Case{Fam: "samelocal", N: []int{k}})
+			}
+			for _, n := range []int{1, 2, 3, 4, 5, 6, 101, 150} {
+				for form := 0; form < 4; form++ {
+					emit(core.Case{Fam: "stateful", N: []int{n, form}})
 				}
 			}
 		}},
